@@ -107,6 +107,52 @@ theorem duration_reencode (n : Nat) :
   have a3 : (n - n % 10000000) % 1000000000 / 10000000 = n % 1000000000 / 10000000 := by omega
   rw [a1, a2, a3]
 
+/-! ### Tags, positioning, threshold -/
+
+/-- Tags: any non-empty list of comma-free tags survives join / split -/
+theorem tags_roundtrip (ts : List (List Char)) (hne : ts ≠ []) (h : ∀ t ∈ ts, ∀ x ∈ t, x ≠ ',') (cur : V) :
+    (customText Spec.schema "Tags" (.list (ts.map V.str))).bind (customParse Spec.schema "Tags" cur)
+      = .ok (.list (ts.map V.str)) := by
+  have : ",".toList = [','] := by decide
+  simp only [customText, lit_tags_m, ofOpt, bind, Outcome.bind]
+  rw [mapM_str ts _ (fun x => rfl)]
+  simp only [customParse, oneChar, lit_tags_u, Option.map_some, bind, Outcome.bind, this,
+    tags_split_join ts hne h]
+
+/-- Positioning d,p,i: the interpolated flag is written 0/1 and read back by `%t` -/
+theorem positioning_roundtrip (d p : Nat) (i : Bool) (hd : d ≤ int64Max) (hp : p ≤ int64Max) (cur : V) :
+    (customText Spec.schema "Positioning" (.struct [.int d, .int p, .bool i])).bind
+      (customParse Spec.schema "Positioning" cur) = .ok (.struct [.int d, .int p, .bool i]) := by
+  have c1 : isDigit ',' = false := by decide
+  have e0 : ∀ n : Nat, fmtInt 0 (n : Int) = Dec.padLeft 0 '0' (natChars n) := fun n => fmtInt_nonneg 0 n
+  have hi : ((if i = true then 1 else 0 : Int)) = (((if i then 1 else 0 : Nat) : Nat) : Int) := by cases i <;> rfl
+  simp only [customText, lit_pos_m, ofOpt, Option.bind_some, sprintf, fmt_pos_m, sprintfItems, Option.map_some,
+    e0, hi, List.append_nil, bind, Outcome.bind]
+  simp only [customParse, lit_pos_u, ofScan, sscanf, fmt_pos_u, mergeBlanks, bind, Outcome.bind]
+  simp only [sscanfItems, scanInt_padded 0 _ ',' _ c1 hd, scanInt_padded 0 _ ',' _ c1 hp, isBlank]
+  cases i <;> simp [Dec.padLeft, natChars_zero, natChars_one, scanBool, verbStart, skipBlanks, isBlank]
+
+/-- Threshold N%: printed with the percent sign, read back without it -/
+theorem threshold_roundtrip (n : Nat) (hn : n ≤ int64Max) (cur : V) :
+    (customText Spec.schema "Threshold" (.int n)).bind (customParse Spec.schema "Threshold" cur) = .ok (.int n) := by
+  have e0 : fmtInt 0 (n : Int) = Dec.padLeft 0 '0' (natChars n) := fmtInt_nonneg 0 n
+  simp only [customText, lit_thr_m, ofOpt, Option.bind_some, sprintf, fmt_thr_m, sprintfItems, Option.map_some,
+    e0, List.append_nil, bind, Outcome.bind]
+  have hpct : "%".toList = ['%'] := by decide
+  simp only [customParse, oneChar, lit_thr_u, Option.map_some, hpct, bind, Outcome.bind]
+  have hlast : (Dec.padLeft 0 '0' (natChars n) ++ ['%']).getLast? = some '%' := by simp
+  have hdrop : (Dec.padLeft 0 '0' (natChars n) ++ ['%']).dropLast = Dec.padLeft 0 '0' (natChars n) := by simp
+  simp only [hlast, if_true, hdrop]
+  have hne := padLeft_ne_nil 0 _ (natChars_ne_nil n)
+  have hd := padLeft_digits 0 _ (natChars_digits n)
+  have hs := scanInt_padded_end 0 n hn
+  generalize Dec.padLeft 0 '0' (natChars n) = ds at *
+  cases ds with
+  | nil => exact absurd rfl hne
+  | cons c cs =>
+    have hb := digit_not_blank c (hd c (by simp))
+    simp [parseIntFull, hb.1, hb.2.1, hs, ofScan, Outcome.map]
+
 /-! ### Dates (1969-01-01 … 2068-12-31) -/
 
 theorem lit_lap_string : Spec.schema.lit "LapDate.String" 0 = some "02-Jan-06,15:04:05" := by decide +kernel
